@@ -13,6 +13,10 @@ CHECKS = [
      "text": "Bounded symbolic model checking of the real Orchestrator.lint_files_parallel / execute_linting_on_paths against the sequential run on a real multi-language project with all rules (sqlite-backed cross-file rules included): max_workers / cpu_count are solver integers in [1,16] (the 2 x workers fallback threshold is decided symbolically), file counts and completion orders of the futures are forked; full Violation records and exit status are compared; Violation.to_dict/from_dict round trip with unbounded symbolic ints.",
      "note": "Trusted: z3, proxy ints, the in-process executor stub (isolation of work items), scripted as_completed. OS scheduling of real worker processes is replaced by the permutation stub. Known finding C07-parallel-loses-cross-file is listed in KNOWN_FINDINGS.jsonl.",
      "technique": TECH},
+    {"property_id": "C01", "design_ref": "DESIGN.md §4 C01",
+     "text": "Bounded symbolic model checking of the real NestingDepthRule.check with the parsers in the loop: control-structure skeletons (chains of the documented constructs of each language, all function kinds, sibling constructs, second functions) are rendered into Python/TS/JS/Rust while max_nesting_depth and the per-language override are unbounded solver integers, so for each skeleton z3 decides the verdict for every limit (flip at exactly one value), the depth in the message and the header line, against the documented depth 1 + enclosing constructs.",
+     "note": "Trusted: z3, proxy ints (counterexamples replayed with plain ints), the renderer and the documented-depth oracle. Skeleton shapes beyond the stated chains, Python match/case, JSX/macros are outside the claim. Known finding C01-python-depth-one-less listed; two defects repaired by fix: commits.",
+     "technique": TECH},
 ]
 
 DONE = {int(c['property_id'][1:]) for c in CHECKS} | {19}
